@@ -10,8 +10,14 @@ src = srcmodel.load_sources()
 for m in mutants.entries() + mutants.seed_entries() + mutants.benign_entries():
     if sys.argv[1] in m[0] and (len(sys.argv) < 3 or m[1] == sys.argv[2]):
         s = dict(src)
-        if m[2] == '<patch>' or m[3] is None:
-            s = mutants.apply_unified_diff(src, m[4])
+        if m[2] in ('<patch>', '<patch+alpha>'):
+            s = mutants.apply_unified_diff(src, m[3])
+            if m[2] == '<patch+alpha>':
+                from selftest import alpha
+                s = alpha.rename_locals(s)
+        elif m[2] == '<alpha>':
+            from selftest import alpha
+            s = alpha.rename_locals(src)
         else:
             s[m[2]] = s[m[2]].replace(m[3], m[4])
         rep = report.Report(m[1], 'quick', 0, write=False)
